@@ -14,6 +14,10 @@ needed (nabSextets) and against each other where the statement is an inverse law
       nabSextets(codeB64ToB2(s) + tail, len(s)) obeys P5 - trailing bytes never leak in
       (this is how memoing parses the code from the front of a whole gram)
 
+  H1  (no history) every conversion gives what it gives in a fresh history whatever was called before it - in
+      particular right after a call that RAISED (wrong type of l, non-Base64 text, too few bytes ...) and was caught by
+      the caller: 29 such calls x 18 probes exhaustively, random histories of up to 30 calls beyond
+
 Not judged (statement is silent): the particular digits chosen (compared with a
 reference encoder and only COUNTED), the empty code string, inputs shorter than
 l sextets (documented ValueError, counted), negative integers (never generated:
@@ -29,7 +33,7 @@ RULE = ("int cases: every (i, l) with i < 2^14 (quick) / 2^18 (thorough) and l i
         "random i of random bit length <= 4096 with l in 0..700. code cases: every Base64 string of length 1..2 (quick) / 1..3 "
         "(thorough) in blocks, each with 3 tails (none, zero byte, 0xff bytes); random strings of length <= 64 with random tails. "
         "nab cases: every 1-byte (quick) / 2-byte (thorough) value x every feasible l, plus random bytes of length <= 48 x l. "
-        "Non-trivial = the case exercised padding (len(intToB64) == l > digits needed, or 6*l not a multiple of 8); "
+        "hist cases: every (failing call, probe) pair of a 29 x 18 table as [fail, probe, probe], plus random histories of <= 30 calls. Non-trivial = the case exercised padding (len(intToB64) == l > digits needed, or 6*l not a multiple of 8); "
         "distinct = by block / by (bit length, l) / by (string length, tail length).")
 ASSUMPTIONS = ["integers are non-negative Python ints, l is a non-negative int (intToB64 does not terminate for i < 0)",
                "a 'Base64 code string' is a non-empty str over the URL-safe alphabet A-Za-z0-9-_ (the empty string is observed, not judged)",
@@ -41,7 +45,8 @@ LEVEL_TEXT = ("Every (i, l) in the enumerated box and every Base64 string up to 
 LEVEL_NOTE = "trusted: Python int/bytes arithmetic, the 10-line bit-string model of 'first 6*l bits then zero pad'"
 NSHARDS = {"quick": 8, "thorough": 16}
 TIMEOUT_S = {"quick": 120, "thorough": 900}
-REQUIRE = {"int_roundtrips_checked": 100000, "int_padded_results": 10000, "code_roundtrips_checked": 4000,
+REQUIRE = {"poison_calls_raised": 500, "history_probe_calls_after_raising_call": 1500, "history_probe_calls": 4000,
+           "int_roundtrips_checked": 100000, "int_padded_results": 10000, "code_roundtrips_checked": 4000,
            "nab_model_checks": 4000, "bytes_variant_checks": 100000, "big_int_roundtrips": 500}
 EXHAUSTIVE = {"quick": "all (i, l) with 0 <= i < 2^14, 0 <= l <= 6; all Base64 strings of length 1..2; all 1-byte inputs of nabSextets",
               "thorough": "all (i, l) with 0 <= i < 2^18, 0 <= l <= 6; all Base64 strings of length 1..3; all 2-byte inputs of nabSextets"}
@@ -80,6 +85,23 @@ def cases(tier, seed, shard, nshards):
             yield {"kind": "nabblock", "nbytes": nb, "lo": lo, "hi": min(256 ** nb, lo + BLOCK)}
         n += 1
 
+    # history cases: every judged conversion must be independent of the calls made before it, failed ones included
+    for pi in range(len(POISON)):
+        for qi in range(len(PROBES)):
+            if n % nshards == shard:
+                yield {"kind": "hist", "ops": [["poison", pi], ["probe", qi], ["probe", qi]]}
+            n += 1
+    hrng = random.Random(f"{seed}:C26:hist:{shard}")
+    for _ in range((600 if tier == "quick" else 20000) // nshards):
+        ops = []
+        for _ in range(hrng.randint(2, 30)):
+            if hrng.random() < 0.45:
+                ops.append(["poison", hrng.randrange(len(POISON))])
+            else:
+                ops.append(["probe", hrng.randrange(len(PROBES))])
+        ops.append(["probe", hrng.randrange(len(PROBES))])
+        yield {"kind": "hist", "ops": ops}
+
     rng = random.Random(f"{seed}:C26:{shard}")
     nrand = (8000 if tier == "quick" else 120000) // nshards
     for _ in range(nrand):
@@ -104,6 +126,117 @@ def cases(tier, seed, shard, nshards):
         maxl = len(b) * 8 // 6
         l = rng.choice([0, maxl, rng.randint(0, maxl), rng.randint(0, maxl + 3)])
         yield {"kind": "nab", "b": b.decode("latin-1"), "l": l}
+
+
+# ---- call histories -------------------------------------------------------------------------------
+# Calls that are expected to fail (wrong type of l, non-Base64 characters, too few bytes ...).  Nothing is demanded of
+# them - raising or returning is only counted - except that they leave no trace: the conversions made afterwards must
+# give what they give in a fresh history.  Arguments are JSON values, {"b": latin-1 text} stands for bytes.
+# (never a negative integer: intToB64 does not terminate on those)
+POISON = [
+    ["intToB64", [5, 2.0]], ["intToB64", [5, None]], ["intToB64", [4096, "2"]], ["intToB64", [1 << 70, 3.0]],
+    ["intToB64", [5.5, 1]], ["intToB64", ["x", 1]], ["intToB64", [None, 1]], ["intToB64", [77, [1]]],
+    ["intToB64", [1e300, 2.5]], ["intToB64b", [5, 2.0]], ["intToB64b", [262143, None]],
+    ["b64ToInt", ["A!"]], ["b64ToInt", [""]], ["b64ToInt", [{"b": "\xff\xfe"}]], ["b64ToInt", [None]], ["b64ToInt", [5]],
+    ["b64ToInt", [["_", "A", "!"]]],
+    ["codeB64ToB2", ["AB!"]], ["codeB64ToB2", [""]], ["codeB64ToB2", [None]], ["codeB64ToB2", ["__ _"]],
+    ["codeB2ToB64", [{"b": "\x00"}, 5]], ["codeB2ToB64", [{"b": "\xff\xff\xff"}, 2.0]], ["codeB2ToB64", [{"b": "\xff"}, None]],
+    ["codeB2ToB64", [None, 1]], ["codeB2ToB64", [{"b": "\xfc\x10\x02\x77"}, "4"]],
+    ["nabSextets", [{"b": ""}, 3]], ["nabSextets", [{"b": "\xff\xff"}, 1.5]], ["nabSextets", [None, 1]],
+]
+# judged conversions used as probes after them
+PROBES = [
+    ["int", 7, 1], ["int", 0, 1], ["int", 0, 3], ["int", 63, 2], ["int", 64, 1], ["int", 4095, 2], ["int", 4096, 5],
+    ["int", (1 << 66) + 5, 0], ["int", 5, 0],
+    ["str", "H", ""], ["str", "-BAC", ""], ["str", "-BA", "\xff"], ["str", "AA", ""], ["str", "__________", "\x00\x01"],
+    ["nab", "\xf8\x10\x02", 4], ["nab", "\xff\xff\xff", 1], ["nab", "\xff\xff\xff\xff", 3], ["nab", "", 0],
+]
+
+
+def _arg(a):
+    if isinstance(a, dict) and set(a) == {"b"}:
+        return a["b"].encode("latin-1")
+    return a
+
+
+def outcome(fn, args):
+    """('ret', value) | ('raise', exception type name) of one call of the real function"""
+    try:
+        return ("ret", getattr(helping, fn)(*args))
+    except Exception as ex:
+        return ("raise", type(ex).__name__)
+
+
+def probe_calls(pr):
+    """the real calls a probe stands for: [(function name, args)]"""
+    if pr[0] == "int":
+        i, l = pr[1], pr[2]
+        s = ref_digits(i) if l == 0 and i else "A" * max(0, l - len(ref_digits(i))) + ref_digits(i)
+        return [("intToB64", (i, l)), ("intToB64b", (i, l)), ("b64ToInt", (s or "A",)), ("b64ToInt", ((s or "A").encode(),))]
+    if pr[0] == "str":
+        s, tail = pr[1], pr[2].encode("latin-1")
+        n = (6 * len(s) + 7) // 8
+        # an independent binary form of s so that the decoder is probed even if the encoder were off
+        bits = "".join(f"{ALPHA.index(c):06b}" for c in s).ljust(8 * n, "0")
+        b = bytes(int(bits[k:k + 8], 2) for k in range(0, 8 * n, 8)) + tail
+        return [("codeB64ToB2", (s,)), ("codeB64ToB2", (s.encode(),)), ("codeB2ToB64", (b, len(s))), ("nabSextets", (b, len(s)))]
+    b = pr[1].encode("latin-1")
+    return [("nabSextets", (b, pr[2])), ("codeB2ToB64", (b, pr[2]))]
+
+
+def judge_probe(pr, ctx):
+    """the existing post-conditions on one probe"""
+    if pr[0] == "int":
+        check_int(pr[1], pr[2], ctx)
+    elif pr[0] == "str":
+        tail = pr[2].encode("latin-1")
+        check_str(pr[1], (b"", tail) if tail else (b"",), ctx)
+    else:
+        check_nab(pr[1].encode("latin-1"), pr[2], ctx)
+
+
+def run_history(case, ctx):
+    """H1: a conversion gives the same result whatever was called before it - in particular after a call that raised.
+    The fresh-history result of every probe is taken from a reference run at the start of the case (each call made
+    twice, the second result kept, so that residue of an earlier case cannot be mistaken for the reference)."""
+    used = sorted({op[1] for op in case["ops"] if op[0] == "probe"})
+    fresh = {}
+    for qi in used:
+        calls = probe_calls(PROBES[qi])
+        for fn, args in calls:
+            outcome(fn, args)
+        fresh[qi] = [outcome(fn, args) for fn, args in calls]
+    prev = "start"
+    prevdesc = "the reference calls"
+    kinds = []
+    for op, idx in case["ops"]:
+        if op == "poison":
+            fn, args = POISON[idx]
+            res = outcome(fn, [_arg(a) for a in args])
+            ctx.count("poison_calls")
+            ctx.count("poison_calls_raised" if res[0] == "raise" else "poison_calls_returned")
+            ctx.seen("poison_outcomes", [fn, idx, res[0], res[1] if res[0] == "raise" else None])
+            prev = "raising-call" if res[0] == "raise" else "odd-successful-call"
+            prevdesc = f"{fn}{tuple(args)!r} which {'raised ' + res[1] if res[0] == 'raise' else 'returned ' + repr(res[1])[:60]}"
+            kinds.append("P" + res[0][:2])
+            continue
+        pr = PROBES[idx]
+        calls = probe_calls(pr)
+        dirty = False
+        for (fn, args), want in zip(calls, fresh[idx]):
+            got = outcome(fn, args)
+            ctx.count("history_probe_calls")
+            ctx.count("history_probe_calls_after_" + prev.replace("-", "_"))
+            if got != want:
+                dirty = True
+                ctx.violation(f"result-depends-on-call-history:{fn}:after-{prev}",
+                              f"{fn}{args!r}: fresh history -> {want!r}; right after {prevdesc} -> {got!r}")
+        if not dirty:
+            judge_probe(pr, ctx)
+        kinds.append("J")
+        prev = "judged-call"
+        prevdesc = f"the judged probe {pr!r:.80}"
+    return kinds
 
 
 # ---- reference pieces (independent of hio) ----------------------------------
@@ -266,6 +399,13 @@ def run_case(case, ctx):
             for l in range(0, nb * 8 // 6 + 2):
                 check_nab(b, l, ctx)
         ctx.nontrivial(["nabblock", nb, case["lo"]])
+    elif k == "hist":
+        kinds = run_history(case, ctx)
+        ctx.seen("history_shapes", kinds)
+        if any(x.startswith("Pra") for x in kinds):
+            ctx.nontrivial(["hist", case["ops"]])
+        if len(case["ops"]) > 3:
+            ctx.sample({"case": case, "outcomes": kinds})
     elif k == "int":
         i = int(case["i_hex"], 16)
         check_int(i, case["l"], ctx, big=i.bit_length() > 64)
